@@ -212,6 +212,10 @@ def src_limits():
         out.append((f"keyword-colon-apart:{k}:in-description", f"Feature: f\n  some text\n  Scenario{gap}{colon} not a scenario\n  Background{gap}{colon}\n  Examples{gap}{colon}\n  Rule{gap}{colon} r\n  Scenario: s\n    Given x\n", "en"))
         out.append((f"keyword-colon-apart:{k}:feature", f"Feature{gap}{colon} f\n  Scenario: s\n", "en"))
         out.append((f"keyword-colon-apart:{k}:fr", f"# language: fr\nFonctionnalit\u00e9: f\n  Sc\u00e9nario: s\n    Soit x\n      | a |\n  Sc\u00e9nario{gap}{colon} t\n  Exemples{gap}{colon}\n", "en"))
+    # a tag beyond column 1000 followed by tags at the start of the next line, for feature, scenario and examples
+    for k, far in enumerate((1000,)):
+        pad = " " * far
+        out.append((f"tag-far-right:{k}", f"@a{pad}@far\n@next\nFeature: f\n  @b{pad}@far2\n @next2\n  Scenario Outline: s\n    Given <x>\n    @c{pad}@far3\n@next3\n    Examples:\n      | x |\n      | 1 |\n", "en"))
     # counts beyond any small-number threshold (caches, recursion depth, fixed-size buffers): more than a thousand of each repeatable construct
     N = 1100
     out.append(("count:tags-on-line", " ".join(f"@t{i}" for i in range(300)) + "\nFeature: f\n  " + "".join(f"@u{i}" for i in range(300)) + "\n  Scenario: s\n", "en"))
@@ -621,3 +625,29 @@ def ast_variants_pass(rep: Reporter, sources, label: str = "ast-variants") -> No
         if rep.prop in own:
             rep.violation({"kind": "ast-variant"}, {"engine": "Trace_Compile", "what": "; ".join(what), "variant": it["variant"], "source": it["source"], "name": it["name"],
                                                     "spec": (m["spec"][0][:2] if m["spec"] else None), "impl": it["pickles"][:2]})
+
+
+def prepared_matchers_pass(rep: Reporter, sources, label: str = "prepared-matchers") -> None:
+    """Several matchers alive at once: one TokenMatcher per default dialect is constructed up front (as an embedding tool does at start-up), other matchers are
+    constructed and used in between, and only then each prepared matcher is used -- with the same outcome as a matcher constructed for the document."""
+    import sessions as S
+    from gherkin.parser import Parser
+    from gherkin.ast_builder import AstBuilder
+    from gherkin.token_matcher import TokenMatcher
+    from gherkin.stream.id_generator import IdGenerator
+    srcs = [(n, s, d) for n, s, d in sources if not known_finding_input(s)]
+    fresh = [S.outcome(lambda: Parser(AstBuilder(IdGenerator())).parse(s, TokenMatcher(d)))[0] for n, s, d in srcs]
+    prepared = {}
+    for n, s, d in srcs:
+        if d not in prepared:
+            prepared[d] = TokenMatcher(d)
+    Parser().parse("Feature: in between\n  Scenario: s\n    Given x\n")            # the parser's own matcher
+    TokenMatcher("en"), TokenMatcher("fr")                                             # and two that are never used
+    for (n, s, d), want in zip(srcs, fresh):
+        got, _ = S.outcome(lambda: Parser(AstBuilder(IdGenerator())).parse(s, prepared[d]))
+        rep.case((label, n))
+        if got != want:
+            rep.violation({"kind": "prepared-matcher"}, {"engine": "reuse", "what": "a matcher constructed earlier (others were constructed and used since) gives a different result than one constructed for "
+                                                         "the document", "source": s, "dialect": d, "fresh": str(want)[:400], "prepared": str(got)[:400]})
+            break
+    rep.traces += len(srcs)
